@@ -49,8 +49,28 @@ function chains(rootName, maxLen) {
   return out
 }
 
+/** conditionals nested in conditionals, bare and under a member / index suffix */
+function nestedConditionals() {
+  const a = id('a'); const d = id('d'); const c = id('c'); const z = id('z'); const k = id('k')
+  const leaves = [['a', a], ['d.e', M.mem(d, 'e')], ['a.b', M.mem(a, 'b')]]
+  const out = []
+  for (const [n1, e1] of leaves) for (const [n2, e2] of leaves) for (const [n3, e3] of leaves.slice(0, 2)) {
+    const inner = M.cond(z, e1, e2)
+    const forms = [
+      [`c ? (z ? ${n1} : ${n2}) : ${n3}`, M.cond(c, M.grp(inner), e3)],
+      [`c ? ${n3} : z ? ${n1} : ${n2}`, M.cond(c, e3, inner)],
+    ]
+    for (const [fn, fe] of forms) {
+      out.push([fn, fe, 'data'])
+      out.push([`(${fn}).x`, M.mem(M.grp(fe), 'x'), 'data-or-none'])
+      out.push([`(${fn})[k]`, M.idx(M.grp(fe), k), 'data-or-none'])
+    }
+  }
+  return out
+}
+
 function topExprs(thorough) {
-  return [...topExprsFixed(), ...chains('a', thorough ? 3 : 2).map(([n, e, k]) => ['chain:' + n, e, k]),
+  return [...topExprsFixed(), ...nestedConditionals(), ...chains('a', thorough ? 3 : 2).map(([n, e, k]) => ['chain:' + n, e, k]),
     // a chain inside the taken and the untaken branch of a conditional, and as the operand of a non-assignable form
     ...chains('a', thorough ? 2 : 1).flatMap(([n, e]) => [
       [`c ? ${n} : d.e`, M.cond(id('c'), e, M.mem(id('d'), 'e')), 'data'],
@@ -136,6 +156,8 @@ const LISTS = [
   ['for-cond-path', (b) => [el('f', [], b, { wxFor: { list: E(M.cond(id('c'), id('list'), M.mem(M.idx(id('outer'), M.lit('1')), 'inner'))) } })], true],
   ['for-cond-data-or-script', (b) => [el('f', [], b, { wxFor: { list: E(M.cond(id('c'), id('list'), M.mem(id('m'), 'presets'))) } })], 'mixed'],
   ['for-script-list', (b) => [el('f', [], b, { wxFor: { list: E(M.mem(id('m'), 'presets')) } })], false],
+  ['for-cond-path-or-literal', (b) => [el('f', [], b, { wxFor: { list: E(M.cond(id('c'), id('list'), M.arr([M.idx(id('list'), M.lit('0'))]))) } })], 'mixed'],
+  ['for-cond-literal-or-path', (b) => [el('f', [], b, { wxFor: { list: E(M.cond(id('c'), M.call(id('f'), []), id('list'))) } })], 'mixed'],
   ['for-nested', (b) => [el('o', [], [el('f', [], b, { wxFor: { list: E(M.mem(id('it'), 'inner')) } })], { wxFor: { list: E(id('outer')), item: 'it', index: 'oi' } })], true],
 ]
 
